@@ -112,6 +112,43 @@ def run(ctx: Ctx):
                         branch_consts.add(c.value)
     for nm in names:
         ctx.ob("C18.b", f"get_sampler:{nm}", nm in branch_consts, fi.loc, f"documented distribution '{nm}' has a returning branch: {nm in branch_consts}", construct=f"get_sampler:branch:{nm}")
+    # every sampler a generator builds from its documented range / distribution parameters is actually drawn from
+    n_samplers = 0
+    for g in sorted(gens, key=lambda c: c.fq):
+        if not ctx.repo.mro_fully_in_repo(g):
+            continue
+        built = {}
+        for c in ctx.repo.mro(g):
+            if isinstance(c, str):
+                continue
+            ini = c.methods.get("__init__")
+            if ini is None:
+                continue
+            for n in ast.walk(ini.node):
+                if isinstance(n, ast.Assign) and len(n.targets) == 1 and isinstance(n.targets[0], ast.Attribute) and isinstance(n.targets[0].value, ast.Name) \
+                        and n.targets[0].value.id == "self" and isinstance(n.value, ast.Call) and getattr(n.value.func, "id", "") == "get_sampler":
+                    built.setdefault(n.targets[0].attr, (c, n.lineno))
+        if not built:
+            continue
+        used = set()
+        for c in ctx.repo.mro(g):
+            if isinstance(c, str):
+                continue
+            for m in c.methods.values():
+                if m.name == "__init__":
+                    continue
+                for n in ast.walk(m.node):
+                    if isinstance(n, ast.Attribute) and isinstance(n.ctx, ast.Load) and isinstance(n.value, ast.Name) and n.value.id == "self":
+                        used.add(n.attr)
+        for attr, (c, ln) in sorted(built.items()):
+            n_samplers += 1
+            ok = attr in used
+            ctx.ob("C18.b", f"{g.name}:self.{attr}:drawn-from", ok, f"{c.module.relpath}:{ln}",
+                   f"self.{attr} (built from the documented range / distribution parameters) is sampled by a generating method" if ok else
+                   f"self.{attr} is built by get_sampler(...) from the constructor's range / distribution parameters but no method of {g.name} ever reads it: "
+                   "those documented parameters are silently ignored", construct=f"{g.name}:dead-sampler:{attr}")
+    if n_samplers < 15:
+        raise AnalysisError(f"only {n_samplers} get_sampler(...) attributes found in the generators")
     # constant samplers stay inside [low, high]: 'center' is the midpoint, 'corner' one of the bounds (AST: Uniform(low=e, high=e))
     lo_n, hi_n = fi.params()[2], fi.params()[3]
     for n in ast.walk(fi.node):
